@@ -92,8 +92,8 @@ def replay(prop, path):
 
 # =====================================================================================================  C13
 
-LEXER_MC = {"quick": ["gen3", "bnd3", "ml7", "str5", "num4", "dir4", "asm4", "word4", "ctx3"],
-            "thorough": ["gen3", "bnd3", "ml7", "gen4", "str5", "str7", "num5", "dir5", "dir6", "asm6", "word5", "ctx3"]}
+LEXER_MC = {"quick": ["gen3", "bnd3", "ml7", "str5", "num4", "dir4", "asm4", "asmq5", "word4", "ctx3"],
+            "thorough": ["gen3", "bnd3", "ml7", "gen4", "str5", "str7", "num5", "dir5", "dir6", "asm6", "asmq5", "word5", "ctx3"]}
 
 
 def lexer_mc_and_replay(c, tier, limit_replay=None):
@@ -127,7 +127,7 @@ def lexer_mc_and_replay(c, tier, limit_replay=None):
 def grid_params(tier):
     lens_q = list(range(1, 41)) + [63, 64, 65, 66, 95, 96, 97, 98, 127, 128, 129, 130, 200]
     return {
-        "kinds": ["ident", "ident_", "uident", "keyword", "kwsuffix", "decimal", "hex", "binary"],
+        "kinds": ["ident", "ident_", "uident", "keyword", "kwsuffix", "decimal", "hex", "binary", "digits", "hexdigits"],
         "lens": Q(tier, lens_q, list(range(1, 201))),
         "rems": Q(tier, [0, 1, 5, 30, 31, 32, 33, 64], [0, 1, 2, 5, 30, 31, 32, 33, 34, 63, 64, 65]),
         "offsets": Q(tier, [0, 1, 7, 31, 32, 33, 64], list(range(0, 65))),
@@ -527,6 +527,15 @@ def c15(tier):
         tasks = wf_corpus(tier, Q(tier, "two", "six"), sample_q=37, sample_t=211)
         t2, _ = soup_tasks("full", 2, "six", sample_every=Q(tier, 1999, 997))
         tasks += t2 + trunc_tasks("six", Q(tier, 11, 2), sample_every=997) + walk_tasks(Q(tier, 5000, 100000), "six", sample_every=997)
+        # columns and line counts beyond 16 bits: a literal of 70 000 bytes on one line followed by blanks, 70 000 line breaks between two tokens
+        big = os.path.join(WORK, "c15_big.ndjson")
+        write_ndjson(big, [
+            {"text": "x := '" + "a" * 70000 + "'      ;\ny := 2;\n", "wf": True, "label": "longline:literal"},
+            {"text": "x := 1;" + "\n" * 70000 + "y := 2;\n", "wf": True, "label": "longline:blank-lines"},
+            {"text": "x := 1; {" + "c" * 66000 + "\n" + "d" * 10 + "}   y := 2;\n", "wf": True, "label": "longline:comment"},
+            {"text": "Foo(" + ", ".join(f"Arg{k}" for k in range(9000)) + ")      ;\n", "wf": True, "label": "longline:call"},
+        ])
+        tasks += texts_tasks(big, "two", chunks=4)
         # CRLF sources: the line breaks inside multi-line comments and literals are CRLF too
         tasks += program_tasks(tier, "six", [CRLFML, CRLFML2], cfg_mode="rotate", sample_every=Q(tier, 499, 4999))
         c.explore(tasks, f"cursors_{label}", ["C15"], vh=vh, sample_cap=Q(tier, 100, 500))
@@ -1009,6 +1018,15 @@ def c18(tier):
         if i % 6 == 0 and "mode" not in scen[-1] and "missing" not in fail:
             scen[-1]["explicit"] = False
             scen[-1]["extra"] = "missing" if i % 12 == 0 else "inc"
+        if i % 5 == 2:
+            scen[-1]["loglevel"] = ["OFF", "ERROR", "DEBUG"][(i // 5) % 3]
+        if i % 9 == 4 and "mode" not in scen[-1]:
+            scen[-1]["badglob"] = ["***", "src/**.pas", "[a"][(i // 9) % 3]
+            scen[-1]["explicit"] = True
+        if i % 11 == 7 and "mode" not in scen[-1] and "missing" not in fail and "badglob" not in scen[-1]:
+            scen[-1]["fd_limit"] = 48
+            scen[-1]["n"] = max(scen[-1]["n"], 120)
+            scen[-1]["explicit"] = False
         # every other batch under a non-default configuration (the same one for the solo runs)
         if i % 2 == 1:
             scen[-1]["cfg"] = [{"format_multiline_strings": "false"}, {"wrap_column": 40, "begin_style": "always_wrap"}, {"format_multiline_strings": "false", "wrap_column": 30},
